@@ -94,6 +94,30 @@ def make_spec(stream, rng, edge_index=None):
         spec["cold"] = {"capacity": hot, "rate": rng.choice([5, 10, 20])}
         if spec["scheduling"]["kind"] == "batch":
             spec["scheduling"] = {"kind": "batch", "partitions": 1, "min": 1, "split": None}
+    elif stream == "hotwait":
+        # an observation falls due while the hot buffer has no room for it (the cluster
+        # has): it has to wait for an earlier workflow to free its data, then starts
+        spec = simgen.gen_spec(rng, pairing=rng.choice(["queue", "batch", "dynamic", "greedy"]))
+        spec["delay"] = None
+        nm = rng.randint(4, 6)
+        spec["machines"] = [{"id": "m%d" % k, "flops": rng.choice([5, 10]), "bw": rng.choice([2, 4])} for k in range(nm)]
+        mx = max(m["flops"] for m in spec["machines"])
+        hot = 100
+        va, vb = rng.randint(50, 58), rng.randint(43, 50)
+
+        def ob(name, start, vol, ncomp):
+            dur = rng.choice([d for d in (1, 2, 5) if vol % d == 0] or [1])
+            return {"name": name, "start": start, "duration": dur, "demand": 1, "rate": vol // dur, "ingest_demand": 1,
+                    "workflow": {"nodes": [{"id": 0, "comp": ncomp * mx}, {"id": 1, "comp": 2 * mx}], "edges": [[0, 1, 2]]}}
+        a = ob("a", 0, va, rng.randint(8, 20))
+        b = ob("b", a["duration"] + rng.randint(2, 6), vb, 2)
+        spec["observations"] = [a, b]
+        spec["total_arrays"] = 2
+        spec["max_ingest"] = rng.choice([nm, 2 * nm, 60])     # the limit may exceed the cluster size
+        spec["hot"] = {"capacity": hot, "rate": max(a["rate"], b["rate"])}
+        spec["cold"] = {"capacity": 300, "rate": 10}
+        if spec["scheduling"]["kind"] == "batch":
+            spec["scheduling"] = {"kind": "batch", "partitions": 2, "min": 1, "split": None}
     elif stream == "samestep":
         spec = simgen.gen_spec(rng)
         if len(spec["observations"]) < 2:
